@@ -81,8 +81,14 @@ def run(ctx):
                               'get_ipv6_addr_by_EUI64(%r, %r) -> %s %s, specification %s' % (
                                   ptxt, mtxt, got[0], got[1], ipaddress.IPv6Address(want)))
                 continue
-            back = call(netutils.get_mac_addr_by_ipv6, netaddr.IPAddress(want))
+            given = netaddr.IPAddress(want)
+            dialect = [None, netaddr.mac_cisco, netaddr.mac_bare, netaddr.mac_pgsql, netaddr.mac_eui48, netaddr.mac_unix][counts['eui'] % 6]
+            back = call(netutils.get_mac_addr_by_ipv6, given) if dialect is None else call(netutils.get_mac_addr_by_ipv6, given, dialect)
             mwant = int.from_bytes(bytes(c['mac']), 'big')
+            if int(given) != want:
+                # the address handed in is the caller's: recovering the MAC from it does not change it
+                ctx.violation({'kind': 'mac-recovery-changes-its-argument'}, {'address': str(ipaddress.IPv6Address(want)), 'after': str(given)},
+                              'get_mac_addr_by_ipv6(%s) left its argument as %s' % (ipaddress.IPv6Address(want), given))
             if back[0] != 'ok' or int(back[1]) != mwant:
                 ctx.violation({'kind': 'mac-recovery', 'got': back[0]},
                               {'address': str(ipaddress.IPv6Address(want)), 'expected_mac': '%012x' % mwant, 'observed': str(back[1])},
